@@ -122,7 +122,7 @@ def main():
                      "kind_free_text": "symbolic interpreter for go/ssa emitting SMT-LIB2 (bit-vectors, equality atoms, strings), decided by z3 4.8.12 / z3 5.1.0 / cvc5 1.0.3; every model replayed natively against the real build"}],
         "checks": checks,
         "not_applicable": na,
-        "notes": "Exit codes: 0 holds within the stated bounds (or only listed known findings), 1 reproduced violation (VIOLATION line), 2 inconclusive/machinery error (no VIOLATION line). known_findings.json lists repaired defects (status fixed) and open ones.",
+        "notes": "Exit codes: 0 holds within the stated bounds (or only listed known findings), 1 reproduced violation (VIOLATION line), 2 inconclusive/machinery error (no VIOLATION line). known_findings.json lists repaired defects (status fixed; there are no open ones). './bin/verif selftest [--kernel]' validates the translator and the oracles (engine vs native build on concrete vectors; kernel model vs x/net/bpf VM, reference decision and the running kernel). Thorough tiers were each run clean on the repaired tree (logs and evidence copies under thorough_runs/); the long ones take 35-45 min (C03, C06, C16). DESIGN.md section 0 is the status after the build.",
     }
     json.dump(m, open("/verif/MANIFEST.json", "w"), indent=1)
     print("claimed:", sorted(CHECKS), "not applicable:", [x["property_id"] for x in na])
